@@ -1173,6 +1173,15 @@ pub fn lockstep(p: &Program, ex: &ExecTrace, ending: Option<&str>) -> Result<Loc
                 }
             }
         }
+        if offered_bodies.is_empty() && !blocked_bodies.is_empty() {
+            // tasks that merely wait for a possible spurious wake-up do not count as able to progress:
+            // with nothing else runnable the execution is over (deadlock), not a scheduling decision
+            return Err(mm(
+                "only-spuriously-wakeable-tasks-offered",
+                format!("decision {}: every offered task ({:?}) is blocked and only spuriously wakeable; the runtime should have ended the execution", k, blocked_bodies),
+                k,
+            ));
+        }
         let nb = p.bodies.len();
         let mut keep: BTreeSet<MState> = BTreeSet::new();
         let mut union_en: BTreeSet<usize> = BTreeSet::new();
